@@ -51,8 +51,28 @@ def _worker_init(prop_name):
     global _PROP
     repo_on_path()
     _PROP = importlib.import_module('harness.props.' + prop_name)
+    _foreign_use_of_shared_classes()
     if hasattr(_PROP, 'worker_init'):
         _PROP.worker_init()
+
+
+def _foreign_use_of_shared_classes():
+    """Every second worker process starts its life the way a process does in which OTHER code has used the
+    shared classes before the code under test runs: the byte cursor in its documented signed / little-endian
+    modes.  What such a use leaves behind (class-level caches, module state) must not colour the decodes."""
+    try:
+        ident = mp.current_process()._identity
+        if not ident or ident[0] % 2 == 0:
+            return
+        from pel.datastream import DataStream
+        raw = bytes([0x80 + (k * 7) % 0x80 for k in range(64)])
+        for order in ('big', 'little'):
+            st = DataStream(raw, byte_order=order, is_signed=True)
+            for width in (1, 2, 4, 8, 3):
+                st.get_int(width)
+            st.get_mem(2)
+    except Exception:
+        pass
 
 
 def _worker_run(item):
